@@ -52,12 +52,14 @@ func buildC14Driver() (string, error) {
 		out[k] = v
 	}
 	total := 0
+	uncontrolled := 0
 	for _, pk := range []struct{ dir, path string }{{"/repo", "github.com/runreveal/pql"}, {"/repo/parser", "github.com/runreveal/pql/parser"}} {
 		res, err := instr.Package(pk.dir, pk.path, resolve)
 		if err != nil {
 			return "", fmt.Errorf("instrument %s: %v", pk.path, err)
 		}
 		total += res.Points
+		uncontrolled += res.Uncontrolled
 		for orig, src := range res.Files {
 			rel := strings.TrimPrefix(orig, "/repo/")
 			dst := filepath.Join(scratch, "instr", rel+".instrumented")
@@ -84,6 +86,10 @@ func buildC14Driver() (string, error) {
 		return "", fmt.Errorf("build of the instrumented driver failed: %v\n%s", err, o)
 	}
 	fmt.Fprintf(os.Stderr, "C14: instrumented %d access sites\n", total)
+	if uncontrolled > 0 {
+		fmt.Fprintf(os.Stderr, "C14: the code under test has %d go statements / channel operations, which the cooperative scheduler does not control\n", uncontrolled)
+		os.Setenv("VERIF_C14_UNCONTROLLED", fmt.Sprint(uncontrolled))
+	}
 	return bin, nil
 }
 
@@ -112,10 +118,15 @@ func c14RacePass(n int) (string, error) {
 	ch := make(chan res, n)
 	sem := make(chan struct{}, 8)
 	for i := 0; i < n; i++ {
+		i := i
 		go func() {
 			sem <- struct{}{}
 			defer func() { <-sem }()
 			c := exec.Command(bin)
+			if i < 2 {
+				// two of the processes also run the repeat-determinism pass over the grammar corpus
+				c = exec.Command(bin, "det")
+			}
 			c.Env = append(os.Environ(), "GORACE=halt_on_error=1 exitcode=66")
 			o, err := c.CombinedOutput()
 			ch <- res{string(o), err}
